@@ -114,7 +114,9 @@ class Engine:
             return
         if using is not None:
             # explicit hypothesis selection (sound: a subset): the quantifier-free facts plus the named ones
-            hyps = [h for h in state.pc if not st._has_quantifier(h)]
+            strict = '!strict' in using      # only the named facts (no unnamed quantifier-free path facts either)
+            using = [u for u in using if u != '!strict']
+            hyps = [] if strict else [h for h in state.pc if not st._has_quantifier(h)]
             for want in using:
                 hit = [t for lbl, t in state.facts.items() if lbl == want or lbl.startswith(want)]
                 if not hit:
